@@ -66,6 +66,7 @@ type Contract struct {
 	Tags     []string
 	Loops    map[int]*LoopSpec
 	AtCalls  []*AtCall
+	AtStores []*AtCall // Callee holds the field key "Type.field"
 	Inline   bool
 	Trusted  bool // body not verified; contract assumed at call sites (reported)
 	Safety   []string // tags for which implicit safety obligations are claimed
@@ -73,6 +74,15 @@ type Contract struct {
 	Fn       *ssa.Function
 	Decl     *ast.FuncDecl
 	BindErr  []string
+}
+
+// WriterSpec: the listed functions are the only ones allowed to store directly to the field.
+type WriterSpec struct {
+	Field   string
+	Tags    []string
+	Allowed []string
+	File    string
+	Line    int
 }
 
 // Pred is a named list of clauses (a representation invariant) expanded textually where it is used.
@@ -98,6 +108,7 @@ type Program struct {
 	DeclByKey map[string]*ast.FuncDecl
 	LoadErrs  []string
 	Preds     map[string]*Pred
+	Writers   []*WriterSpec
 	typeTags  map[string]int
 	effects   map[*ssa.Function]*effectSet
 	impls     map[string][]*ssa.Function
@@ -228,7 +239,7 @@ func (p *Program) parseContractFile(fname string, f *ast.File) error {
 		}
 	}
 	// join continuation lines: a line is a continuation unless it starts with a keyword
-	kw := regexp.MustCompile(`^(func|requires|ensures|assume|modifies|tags|loop|at|inline|trusted|safety|noverify|pred|clause)\b`)
+	kw := regexp.MustCompile(`^(func|requires|ensures|assume|modifies|tags|loop|at|inline|trusted|safety|noverify|pred|clause|writers)\b`)
 	var joined []line
 	for _, l := range lines {
 		if kw.MatchString(l.text) || len(joined) == 0 {
@@ -250,6 +261,27 @@ func (p *Program) parseContractFile(fname string, f *ast.File) error {
 			head = head[:i]
 		}
 		bad := func(msg string) error { return fmt.Errorf("%s:%d: %s: %q", fname, l.ln, msg, l.text) }
+		if head == "writers" {
+			// writers{C13} Type.field : f1, f2, ...
+			m := regexp.MustCompile(`^writers(\{[A-Z0-9, ]+\})?\s+([\w.]+)\s*:\s*(.*)$`).FindStringSubmatch(l.text)
+			if m == nil {
+				return bad("writers{TAGS} Type.field : f1, f2")
+			}
+			ws := &WriterSpec{Field: m[2], File: fname, Line: l.ln}
+			for _, t := range strings.Split(strings.Trim(m[1], "{}"), ",") {
+				if t = strings.TrimSpace(t); t != "" {
+					ws.Tags = append(ws.Tags, t)
+				}
+			}
+			for _, f := range strings.Split(m[3], ",") {
+				if f = strings.TrimSpace(f); f != "" {
+					ws.Allowed = append(ws.Allowed, f)
+				}
+			}
+			p.Writers = append(p.Writers, ws)
+			cur, curPred = nil, nil
+			continue
+		}
 		if head == "pred" {
 			// pred name(a, b)
 			m := regexp.MustCompile(`^(\w+)\(([^)]*)\)$`).FindStringSubmatch(strings.TrimSpace(rest))
@@ -371,9 +403,9 @@ func (p *Program) parseContractFile(fname string, f *ast.File) error {
 				}
 			}
 		case "at":
-			// at call <callee> assert#label expr
-			if len(fields) < 5 || fields[1] != "call" {
-				return bad("at call <callee> assert#label expr")
+			// at call <callee> assert#label expr   |   at store <Type.field> assert#label expr
+			if len(fields) < 5 || (fields[1] != "call" && fields[1] != "store") {
+				return bad("at call|store <target> assert#label expr")
 			}
 			callee := fields[2]
 			idx := strings.Index(l.text, callee) + len(callee)
@@ -381,7 +413,11 @@ func (p *Program) parseContractFile(fname string, f *ast.File) error {
 			if err != nil {
 				return err
 			}
-			cur.AtCalls = append(cur.AtCalls, &AtCall{Callee: callee, Clause: cl})
+			if fields[1] == "store" {
+				cur.AtStores = append(cur.AtStores, &AtCall{Callee: callee, Clause: cl})
+			} else {
+				cur.AtCalls = append(cur.AtCalls, &AtCall{Callee: callee, Clause: cl})
+			}
 		default:
 			return bad("unknown clause keyword")
 		}
@@ -640,6 +676,9 @@ func (p *Program) bindClause(c *Contract, cl *Clause, pos token.Pos, withResults
 			}
 			params = append(params, name+" "+types.TypeString(v.Type(), p.qualifier))
 		}
+	}
+	if cl.Kind == "invariant" || cl.Kind == "decreases" {
+		params = append(params, "rangeIdx int")
 	}
 	if cl.Kind == "decreases" {
 		// integer-valued expression
